@@ -33,7 +33,13 @@ def cases(seed, tier, shard, nshards):
     cfg = SIZES[tier]
     rng = random.Random(f'{seed}:C01:{tier}:{shard}')
     for _ in range(cfg['n'] // nshards):
-        case = MC.random_cut_case(rng, rng.choice(cfg['max_heavy']))
+        if rng.random() < 0.12:
+            # fused aromatic systems (naphthalene, quinoline, anthracene, phenanthrene skeletons) written in lower case
+            case = MC.random_cut_case(rng, rng.choice([10, 14, 18]), mol_kw=dict(p_arom=0.95, p_fused=0.8))
+            if case is not None:
+                case['features'] = sorted(set(case['features']) | {'fused_aromatic_rings'})
+        else:
+            case = MC.random_cut_case(rng, rng.choice(cfg['max_heavy']))
         if case is not None:
             yield case
 
